@@ -60,7 +60,7 @@ func (k *worker) runPair(v engine.Vec) engine.Result {
 	if pan := engine.Bubble(k.t, caseAt, func() {
 		fresh := func() *rig.Rig {
 			r := newRig(refstore.CapAll)
-			r.Core.Cfg.Exchange = x.policy // the default policy (pairs do not vary it)
+			configure(r, x, ex) // the default policy, no policy claims (pairs do not vary them)
 			r.Core.Reset(k.w.st.Clone())
 			return r
 		}
